@@ -597,7 +597,7 @@ package leader
 //@   on store kvElection.watcherRunning as s when !inspawn() set wrArmed = s.value
 //@   on call watchLoop assert C13+C06.one_watch_loop_at_a_time: inspawn() && !watcherSeen && wrArmed
 //@   on unlock kvElection.mu assert C03+C02.claim_cleared_at_unlock: !unlessLeader ==> !e.isLeader
-//@   on store kvElection.isLeader assert C07.settling_never_clears_a_claim: unlessLeader ==> !cleared
+//@   on store kvElection.isLeader assert C07+C08+C03.settling_never_clears_a_claim: unlessLeader ==> !cleared
 //@   ensures C07.settling_reports_nothing_cleared: unlessLeader ==> !result
 //@   ensures C08+C03.reports_cleared: !unlessLeader ==> result == cleared
 //@   ensures C19.cancelled_on_demotion: cleared && !unlessLeader ==> termCancelled
